@@ -219,8 +219,11 @@ func (c *maComp) Run(args []string) string {
 		// an update is in flight (the first matched counter client is slow: its callback is held)
 		// while the registration (client, query) is removed.  The removal must not return before
 		// the notification has been offered to everybody it matched: a subscriber is never offered
-		// a notification after its remove function returned.  Sequentially this is `upd` then `rm`.
+		// a notification after its remove function returned.  The removed registration belongs to a
+		// client of its own (registered here, nowhere else), so any later offer to it is wrong.
+		// Sequentially this is `add c q`, `upd p`, `rm c q`.
 		cl := decStr(args[2])
+		rmTemp := c.m.AddQuery(decPath(args[3]), c.client(cl))
 		hold, entered := make(chan struct{}), make(chan struct{})
 		var mu sync.Mutex
 		seen, removed, late := 0, false, false
@@ -244,9 +247,7 @@ func (c *maComp) Run(args []string) string {
 		case <-updDone:
 		}
 		go func() {
-			for _, rm := range c.closures[args[2]+" "+args[3]] {
-				rm()
-			}
+			rmTemp()
 			mu.Lock()
 			removed = true
 			mu.Unlock()
@@ -447,9 +448,6 @@ func (c *maComp) Gen(r *rand.Rand, tier string) []string {
 				continue
 			}
 			a := added[r.Intn(len(added))]
-			if !strings.HasPrefix(a.c, "c") {
-				continue
-			}
 			p := cloneStrs(a.q)
 			for j := range p {
 				if p[j] == "*" {
@@ -459,7 +457,12 @@ func (c *maComp) Gen(r *rand.Rand, tier string) []string {
 			if r.Intn(3) == 0 {
 				p = append(p, maRandPath(r, 2)...)
 			}
-			seq = append(seq, "updrm "+encPath(p)+" "+a.c+" "+encPath(a.q))
+			// (the removed registration: a fresh client on a registered query or a prefix of it)
+			q := cloneStrs(a.q)
+			if len(q) > 0 && r.Intn(3) == 0 {
+				q = q[:r.Intn(len(q))]
+			}
+			seq = append(seq, "updrm "+encPath(p)+" cz"+strconv.Itoa(i)+" "+encPath(q))
 		case x < 59:
 			l := "once"
 			for k := 1 + r.Intn(3); k > 0; k-- {
